@@ -9,6 +9,7 @@ import (
 	"fmt"
 	"io"
 	"net"
+	"os"
 	"strconv"
 	"strings"
 	"time"
@@ -85,7 +86,8 @@ func runC15(rc *RC) {
 	p.Serve(mux.New(stanza.NSClient, ibb.Handle(hA)), mux.New(stanza.NSClient, ibb.Handle(hB)))
 	blocks := []int{1, 2, 3, 4, 5, 8, 63, 64, 65, 4095, 4096, 4097, 65535}
 	block := blocks[ch.Int("workload", len(blocks))]
-	wrap := rc.Tier == "thorough" && ch.Chance("workload", 1, 60)
+	// the 65536-packet sequence wrap costs about a minute per run: every 5000th run of the thorough tier
+	wrap := (rc.Tier == "thorough" && rc.Index%5000 == 4999) || os.Getenv("C15_FORCE_WRAP") != ""
 	ack := ch.Chance("workload", 1, 2)
 	if wrap {
 		block, ack = 1, false
@@ -94,13 +96,25 @@ func runC15(rc *RC) {
 	reverse := ch.Chance("workload", 1, 3) && !wrap
 	payload := genPayload(rc, block)
 	if wrap {
-		payload = bytes.Repeat([]byte("abcdefghijklmnopqrstuvwxyz012345"), 65600/32+1)[:65600]
+		// block size 1: one data packet per 3 payload bytes, so this crosses packet 65535 -> 0
+		payload = bytes.Repeat([]byte("abcdefghijklmnopqrstuvwxyz012345"), 3*65560/32+1)[:3*65560]
 	}
 	payload2 := genPayload(rc, block)
 	closer := ch.Int("workload", 3) // 0 opener closes, 1 acceptor closes, 2 nobody (session ends)
 	rbuf := []int{1, 2, 7, 64, 1000, 70000}[ch.Int("workload", 6)]
 	sid := "sid" + strconv.Itoa(ch.Int("workload", 1000))
-	rc.Describe("strategy=%s block=%d carrier-iq=%v accept=%d reverse=%v len=%d len2=%d closer=%d readbuf=%d wrap=%v", strat, block, ack, acceptMode, reverse, len(payload), len(payload2), closer, rbuf, wrap)
+	overflow := !wrap && acceptMode != 5 && ch.Chance("workload", 1, 6)
+	readGo := !overflow
+	bufSet := !overflow
+	if overflow {
+		block, ack, reverse = []int{4, 8, 16, 64}[ch.Int("workload", 4)], true, false
+		payload = genPayload(rc, block)
+		for len(payload) < 12*block {
+			payload = append(payload, payload...)
+			payload = append(payload, 'x')
+		}
+	}
+	rc.Describe("overflow=%v strategy=%s block=%d carrier-iq=%v accept=%d reverse=%v len=%d len2=%d closer=%d readbuf=%d wrap=%v", overflow, strat, block, ack, acceptMode, reverse, len(payload), len(payload2), closer, rbuf, wrap)
 	rc.CaseKey = fmt.Sprint(block, ack, acceptMode, reverse, closer)
 	bJID := jid.MustParse("example.net")
 
@@ -120,6 +134,9 @@ func runC15(rc *RC) {
 			k := 1 + ch.Int(label, min(len(data), 1+block*2))
 			if ch.Chance(label, 1, 4) {
 				k = 1 + ch.Int(label, len(data))
+			}
+			if wrap {
+				k = min(3, len(data)) // one packet per complete base64 group: 65536+ packets
 			}
 			n, err := c.Write(data[:k])
 			if err != nil {
@@ -162,7 +179,14 @@ func runC15(rc *RC) {
 					writeDoneB = true
 				})
 			}
-			rc.Spawn("reader-b", func() { readAll(rc, connB, &rdB, rbuf) })
+			if overflow {
+				connB.(*ibb.Conn).SetReadBuffer(3 * block)
+				bufSet = true
+			}
+			rc.Spawn("reader-b", func() {
+				simrt.WaitUntil("reader-b:go", func() bool { return readGo })
+				readAll(rc, connB, &rdB, rbuf)
+			})
 			if closer == 1 {
 				simrt.WaitUntil("closer-b", func() bool { return phase >= 1 })
 				if phase == 1 {
@@ -187,6 +211,7 @@ func runC15(rc *RC) {
 		if reverse {
 			rc.Spawn("reader-a", func() { readAll(rc, connA, &rdA, rbuf) })
 		}
+		simrt.WaitUntil("writer-a:buffer-limit-set", func() bool { return bufSet || acceptErr != nil })
 		werrA = writeAll(connA, connA.Flush, payload, "wa")
 		writeDoneA = true
 		if closer == 0 {
@@ -209,6 +234,24 @@ func runC15(rc *RC) {
 	}
 	if !openDone || openErr != nil || !acceptDone || acceptErr != nil {
 		rc.Failf("C15.c1", "open-failed", "open/accept did not complete: openDone=%v err=%v acceptDone=%v err=%v status=%v stuck=%v", openDone, openErr, acceptDone, acceptErr, st, rc.S.Stuck())
+		finishC15(rc, p, &phase)
+		return
+	}
+	if overflow {
+		// the reader lagged: the writer must have been refused, and exactly the acknowledged packets reach the reader
+		rc.Evals["C15.c4"]++
+		readGo = true
+		ca := rc.Spawn("close-a", func() { connA.Close() })
+		rc.S.Run(func() bool { return rdB.done && ca.Done() }, 400000, time.Minute)
+		var se stanza.Error
+		if werrA == nil || !errors.As(werrA, &se) || se.Condition != stanza.ResourceConstraint {
+			rc.Failf("C15.c4", "overflow-not-refused", "the reader did not read and its buffer limit is %d bytes, but writing %d bytes ended with %v (want a resource-constraint stanza error)", 3*block, len(payload), werrA)
+		}
+		accepted := ibbAccepted(p.CA.Out().Tap, p.CB.Out().Tap, sid)
+		if !bytes.Equal(rdB.got, accepted) {
+			rc.Failf("C15.c4", "refused-packet-disturbs-stream", "the reader got %d bytes, the acknowledged packets carry %d bytes (buffer limit %d, %d written): a refused packet reached the reader or acknowledged data was lost", len(rdB.got), len(accepted), 3*block, len(payload))
+		}
+		checkPrefix0(rc, "a->b overflow", rdB.got, payload)
 		finishC15(rc, p, &phase)
 		return
 	}
@@ -352,6 +395,40 @@ func finishC15(rc *RC, p *Pair, phase *int) {
 	}
 	rc.Check("C15.c6", "stuck-after-teardown", len(real) == 0, "tasks still blocked after teardown: %v", real)
 	_ = errors.Is
+}
+
+func checkPrefix0(rc *RC, label string, got, want []byte) {
+	rc.Evals["C15.c2"]++
+	if !bytes.HasPrefix(want, got) {
+		rc.Failf("C15.c2", "bytes-differ:"+label, "%s: bytes read (%d) are not a prefix of the bytes written (%d)", label, len(got), len(want))
+	}
+}
+
+// ibbAccepted decodes the data packets of stream sid in out whose IQ was answered with a result in back.
+func ibbAccepted(out, back []byte, sid string) []byte {
+	ok := map[string]bool{}
+	for _, e := range ParseWire(back).Elems {
+		if e.Start.Name.Local == "iq" && e.Attr("type") == "result" {
+			ok[e.Attr("id")] = true
+		}
+	}
+	var all []byte
+	for _, e := range ParseWire(out).Elems {
+		if !ok[e.Attr("id")] {
+			continue
+		}
+		for i, t := range e.Toks {
+			st, isStart := t.(xml.StartElement)
+			if !isStart || st.Name.Local != "data" || (Elem{Start: st}).Attr("sid") != sid || i+1 >= len(e.Toks) {
+				continue
+			}
+			if cd, isCD := e.Toks[i+1].(xml.CharData); isCD {
+				b, _ := base64.StdEncoding.DecodeString(string(bytes.TrimSpace(cd)))
+				all = append(all, b...)
+			}
+		}
+	}
+	return all
 }
 
 // checkIBBWire: data packets numbered consecutively from zero modulo 65536,
